@@ -63,7 +63,7 @@ def build(tier, work, builder):
                      ("isLValue", r"^bool TypeChecker::isLValue\(expression_t expr\) const"),
                      ("isUniqueReference", r"^bool TypeChecker::isUniqueReference\(expression_t expr\) const")):
         sl = X.function(src, "TypeChecker::" + name, rx)
-        X.rename_self_calls(sl, name, minimum=3)
+        X.rename_self_calls(sl, name, minimum=0)
         lv.append(sl)
     cc = X.function(src, "channelCapability", r"^static int channelCapability\(type_t type\)")
     ip = X.function(src, "TypeChecker::isParameterCompatible", r"^bool TypeChecker::isParameterCompatible\(type_t paramType, expression_t arg\)")
